@@ -426,7 +426,9 @@ func TestVerif_C07_h2hostile(t *testing.T) {
 	opts := c07Options()
 	clients := make([]*Client, len(opts))
 	mk := func(i int) {
-		c := C().SetTimeout(10 * time.Second).EnableH2C().EnableForceHTTP2().SetLogger(nil)
+		// (a graceful GOAWAY is retried on a new connection with exponential back-off until the client
+		// timeout; 6 s keeps such cases affordable, the watchdog — the oracle — stays at 15 s per attempt)
+		c := C().SetTimeout(6 * time.Second).EnableH2C().EnableForceHTTP2().SetLogger(nil)
 		opts[i].setup(c)
 		clients[i] = c
 	}
@@ -498,10 +500,17 @@ func TestVerif_C07_h2hostile(t *testing.T) {
 			}
 		}
 		s.Begin(id, human)
+		t0 := time.Now()
 		close(start)
 		select {
 		case res := <-ch:
 			s.Count(res[0])
+			if d := time.Since(t0); d > 3*time.Second {
+				s.Count("slow>3s")
+				if os.Getenv("VERIF_DEBUG") != "" {
+					fmt.Fprintf(os.Stderr, "SLOW %v %s -> %s\n", d.Round(100*time.Millisecond), human, res[0])
+				}
+			}
 			for _, tg := range tags {
 				if !strings.HasPrefix(tg, "ce:") {
 					s.Count("tag:" + tg)
@@ -517,7 +526,7 @@ func TestVerif_C07_h2hostile(t *testing.T) {
 			}
 		case <-time.After(c07Watchdog(opts[oi].name)):
 			s.Count("wedged")
-			s.Observe(id, false, class, true, human, "call did not return within the watchdog bound (15 s per attempt) although the peer closed the connection and the client timeout is 10 s per attempt")
+			s.Observe(id, false, class, true, human, "call did not return within the watchdog bound (15 s per attempt) although the peer closed the connection and the client timeout is 6 s per attempt")
 			wedges++
 			mk(oi) // that client is stuck; continue with a fresh one
 		}
